@@ -3,17 +3,14 @@
   Statements about Store/Model.lean; the client iterator is covered by the `iter` stream only.
 -/
 import OlricModel.Proofs.ScanLemmas
+import OlricModel.Proofs.KVErase
+import OlricModel.Proofs.KVScanInv
 import OlricModel.Props.C11
 namespace Olric.C12
 open Olric KV Table
 
 /-- in every reachable store state the slots of a table are in strictly increasing offset order -/
-theorem sorted_of_wf (k : KV) (w : k.WF) : ∀ t ∈ k.newestFirst, Table.Sorted t.slots := by
-  intro t ht
-  have hl := (w.layout t ht).1
-  refine hl.imp (fun {a b} hab => ?_)
-  have : a.r.size ≥ 29 := by unfold Rec.size; omega
-  omega
+theorem sorted_of_wf (k : KV) (w : k.WF) : ∀ t ∈ k.newestFirst, Table.Sorted t.slots := KV.sorted_of_wf k w
 
 /-- **C12 (one table).**  Iterating `Table.Scan` / `ScanRegexMatch` from any cursor until it answers
     0 yields every (matching) entry stored at or after the cursor exactly once, in offset order, for
@@ -41,73 +38,153 @@ theorem scan_eq_scanAux (t : Table) (cursor count : Nat) (m : Rec → Bool) (now
     (t.scan cursor count m now).2.1 = (scanAux m (t.slots.filter (fun s => s.off ≥ cursor)) count cursor []).2.map (·.r) := by
   simp [Table.scan]
 
-theorem minList_spec (l : List Nat) :
-    (minList l = none ↔ l = []) ∧ ∀ n, minList l = some n → n ∈ l ∧ ∀ x ∈ l, n ≤ x := by
-  induction l with
-  | nil => simp [minList]
-  | cons a l ih =>
-    obtain ⟨i1, i2⟩ := ih
-    constructor
-    · simp only [minList]
-      cases minList l <;> simp
-    · intro n hn
-      simp only [minList] at hn
-      cases hm : minList l with
-      | none =>
-        simp only [hm] at hn
-        injection hn with hn
-        subst hn
-        have := i1.mp hm
-        subst this
-        simp
-      | some mn =>
-        simp only [hm] at hn
-        injection hn with hn
-        obtain ⟨j1, j2⟩ := i2 mn hm
-        by_cases hle : a ≤ mn
-        · simp only [hle, if_true] at hn
-          subst hn
-          refine ⟨List.mem_cons_self, ?_⟩
-          intro x hx
-          cases hx with
-          | head => exact Nat.le_refl _
-          | tail _ hx => exact Nat.le_trans hle (j2 x hx)
-        · simp only [hle, if_false] at hn
-          subst hn
-          refine ⟨List.mem_cons_of_mem _ j1, ?_⟩
-          intro x hx
-          cases hx with
-          | head => omega
-          | tail _ hx => exact j2 x hx
-
 /-- **C12 (hop to the next table).**  When a table is exhausted the scan continues with the smallest
     registered coefficient above the current one — never skipping an existing table, whatever holes
     compaction and transfers left in the numbering — and ends only when there is none. -/
 theorem C12_next_table (k : KV) (c : Nat) :
     (k.findCoefficient c = none ↔ ∀ x ∈ k.cfs, x ≤ c) ∧
-    ∀ n, k.findCoefficient c = some n → n ∈ k.cfs ∧ c < n ∧ ∀ x ∈ k.cfs, c < x → n ≤ x := by
-  obtain ⟨i1, i2⟩ := minList_spec (k.cfs.filter (· > c))
-  unfold findCoefficient
-  constructor
-  · rw [i1, List.filter_eq_nil_iff]
-    constructor
-    · intro h x hx; have := h x hx; simp at this; exact this
-    · intro h x hx; have := h x hx; simp; exact this
-  · intro n hn
-    obtain ⟨j1, j2⟩ := i2 n hn
-    have := List.mem_filter.mp j1
-    refine ⟨this.1, by simpa using this.2, ?_⟩
-    intro x hx hcx
-    exact j2 x (List.mem_filter.mpr ⟨hx, by simpa using hcx⟩)
+    ∀ n, k.findCoefficient c = some n → n ∈ k.cfs ∧ c < n ∧ ∀ x ∈ k.cfs, c < x → n ≤ x :=
+  KV.findCoefficient_spec k c
 
 /-- the keys a full walk must produce are exactly the present keys, each in one table only (C11) -/
 theorem C12_present_once (k : KV) (w : k.WF) :
     (k.rangeAll.map (·.1)).Nodup ∧ ∀ h r, (h, r) ∈ k.rangeAll ↔ k.lookup h = some r :=
   ⟨(rangeAll_spec k w).1, (rangeAll_spec k w).2⟩
 
+/-! ### The whole iteration: composition of the per-table walks -/
+
+/-- the invariant the composition needs — coefficients of the tables in use pairwise different and
+    below `nextCf`, no table written beyond its allocation — is kept by every store operation ... -/
+theorem C12_scaninv_step (k : KV) (w : k.WF) (si : k.ScanInv) (op : C11.Op) : KV.ScanInv (C11.step k op).1 := by
+  cases op with
+  | put h r now => exact KV.scanInv_put k w si h r now
+  | putRaw h r => exact KV.scanInv_putRaw k w si h r
+  | get h now => exact KV.scanInv_get k w si h now
+  | del h => exact KV.scanInv_delete k w si h
+  | ttl h ttl ts now => exact KV.scanInv_updateTTL k w si h ttl ts now
+  | compact now order => exact KV.scanInv_compaction k w si now order
+
+/-- ... hence holds in every state reachable from a fresh fragment store, by any operation sequence -/
+theorem C12_scaninv_run (ops : List C11.Op) (hok : ∀ op ∈ ops, op.ok) (k : KV) (w : k.WF) (si : k.ScanInv) :
+    KV.ScanInv (C11.run k ops).1 := by
+  induction ops generalizing k with
+  | nil => exact si
+  | cons op ops ih =>
+    obtain ⟨w1, _⟩ := C11.C11_step k w op (hok op List.mem_cons_self)
+    exact ih (fun x hx => hok x (List.mem_cons_of_mem _ hx)) _ w1 (C12_scaninv_step k w si op)
+
+/-- **C12 (full iteration of one fragment store).**  Run kvstore.Scan / ScanRegexMatch from cursor 0,
+    feeding every returned cursor back, each page stamping lastAccess on what it yields, until the
+    cursor is 0 again: for every page size ≥ 1 and every pattern on the key, in every reachable store
+    state (any table layout: holes in the coefficients after compaction, tables of any fill, empty
+    and recycled tables), the loop ends within (entries + tables + 1) pages and yields — lastAccess
+    aside — exactly the matching entries of the tables in use, table by table in ascending order of
+    coefficient, each entry once. -/
+theorem C12_full_walk (k : KV) (w : k.WF) (si : k.ScanInv) (hT : 0 < k.tableSize) (m : Rec → Bool)
+    (hm : LaInd m) (count : Nat) (hc : 1 ≤ count) (now : Nat → Int) (fuel : Nat) (hfuel : k.totalLen + 1 ≤ fuel) :
+    (KV.walkKV m count now fuel 0 k).map Rec.core = ((k.startTables).flatMap (KV.yieldOf m)).map Rec.core := by
+  have h1 := KV.walkKV_er m hm count now fuel 0 k si.cfd
+  rw [KV.walkP_zero k w si hT m count hc now fuel hfuel] at h1
+  have hcore : ∀ l : List Rec, l.map Rec.core = (l.map Rec.er).map Rec.core := by
+    intro l; rw [List.map_map]; rfl
+  rw [hcore, h1, ← hcore]
+
+/-- the tables visited are exactly the tables in use, each once -/
+theorem C12_tables_once (k : KV) (si : k.ScanInv) :
+    (k.startTables).Perm (k.newestFirst.filter (fun t => !isRecycled t)) := by
+  obtain ⟨hmem, hasc⟩ := KV.startTables_spec k si
+  have hn1 : (k.startTables).Nodup := by
+    rw [List.nodup_iff_pairwise_ne]
+    exact hasc.imp (fun {a b} h e => by rw [e] at h; exact Nat.lt_irrefl _ h)
+  have hn2 : (k.newestFirst.filter (fun t => !isRecycled t)).Nodup := by
+    rw [List.nodup_iff_pairwise_ne]
+    refine (si.cfd.filter _).imp_of_mem ?_
+    intro a b ha hb d e
+    have hal := (List.mem_filter.mp ha).2
+    have hbl := (List.mem_filter.mp hb).2
+    simp only [Bool.not_eq_eq_eq_not, Bool.not_true] at hal hbl
+    exact d hal hbl (by rw [e])
+  rw [List.perm_ext_iff_of_nodup hn1 hn2]
+  intro x
+  rw [hmem x, List.mem_filter]
+  simp
+
+/-- what `Range` enumerates, restricted to the pattern, table by table -/
+theorem rangeAll_filter (k : KV) (w : k.WF) (m : Rec → Bool) :
+    (k.rangeAll.filter (fun p => m p.2)).map (·.2) =
+      (k.newestFirst.filter (fun t => !isRecycled t)).flatMap (KV.yieldOf m) := by
+  have hrec : ∀ t ∈ k.newestFirst, isRecycled t = true → t.slots = [] := by
+    intro t ht hr
+    simp only [newestFirst, List.mem_append] at ht
+    rcases ht with ht | ht
+    · cases hh : k.head with
+      | none => rw [hh] at ht; cases ht
+      | some hd =>
+        rw [hh] at ht; simp only [Option.toList, List.mem_singleton] at ht; subst ht
+        have := w.headRW t hh
+        simp [isRecycled, this] at hr
+    · exact w.recEmpty t ht hr
+  simp only [rangeAll, List.filter_flatMap, List.map_flatMap]
+  generalize k.newestFirst = ts at hrec
+  induction ts with
+  | nil => rfl
+  | cons t ts ih =>
+    have ih' := ih (fun x hx => hrec x (List.mem_cons_of_mem _ hx))
+    simp only [List.flatMap_cons, List.filter_cons]
+    have hy : List.map (fun x => x.2) (List.filter (fun p => m p.2) (List.map (fun s => (s.hk, s.r)) t.slots)) = KV.yieldOf m t := by
+      simp only [KV.yieldOf, List.filter_map, List.map_map]
+      rfl
+    rw [hy, ih']
+    cases hr : isRecycled t with
+    | false => simp
+    | true => simp [KV.yieldOf, hrec t List.mem_cons_self hr]
+
+/-- **C12 (every present key exactly once, nothing else).**  The entries a full iteration yields
+    are, lastAccess aside, a rearrangement of the entries of the present keys that match the pattern:
+    by C12_present_once every present key has exactly one entry in that list, so every key present
+    during the iteration is yielded exactly once and no deleted, superseded or never-stored key is. -/
+theorem C12_full_walk_exactly_once (k : KV) (w : k.WF) (si : k.ScanInv) (hT : 0 < k.tableSize) (m : Rec → Bool)
+    (hm : LaInd m) (count : Nat) (hc : 1 ≤ count) (now : Nat → Int) (fuel : Nat) (hfuel : k.totalLen + 1 ≤ fuel) :
+    ((KV.walkKV m count now fuel 0 k).map Rec.core).Perm
+      (((k.rangeAll.filter (fun p => m p.2)).map (·.2)).map Rec.core) := by
+  rw [C12_full_walk k w si hT m hm count hc now fuel hfuel, rangeAll_filter k w m]
+  exact ((C12_tables_once k si).flatMap_right _).map _
+
+/-- stated on keys: a present matching key is yielded; whatever is yielded is a present matching key -/
+theorem C12_full_walk_complete_sound (k : KV) (w : k.WF) (si : k.ScanInv) (hT : 0 < k.tableSize) (m : Rec → Bool)
+    (hm : LaInd m) (count : Nat) (hc : 1 ≤ count) (now : Nat → Int) (fuel : Nat) (hfuel : k.totalLen + 1 ≤ fuel) :
+    (∀ h r, k.lookup h = some r → m r = true → r.core ∈ (KV.walkKV m count now fuel 0 k).map Rec.core) ∧
+    (∀ c ∈ (KV.walkKV m count now fuel 0 k).map Rec.core, ∃ h r, k.lookup h = some r ∧ m r = true ∧ r.core = c) := by
+  have hp := C12_full_walk_exactly_once k w si hT m hm count hc now fuel hfuel
+  obtain ⟨_, hr⟩ := rangeAll_spec k w
+  constructor
+  · intro h r hl hmr
+    rw [hp.mem_iff, List.mem_map]
+    refine ⟨r, ?_, rfl⟩
+    rw [List.mem_map]
+    exact ⟨(h, r), List.mem_filter.mpr ⟨(hr h r).mpr hl, hmr⟩, rfl⟩
+  · intro c hc'
+    rw [hp.mem_iff, List.mem_map] at hc'
+    obtain ⟨r, hr', rfl⟩ := hc'
+    rw [List.mem_map] at hr'
+    obtain ⟨p, hpm, rfl⟩ := hr'
+    obtain ⟨hp1, hp2⟩ := List.mem_filter.mp hpm
+    exact ⟨p.1, p.2, (hr p.1 p.2).mp hp1, hp2, rfl⟩
+
 /-! Non-vacuity -/
 example : walkTable (fun _ => true)
     [⟨1, 0, C11.recA⟩, ⟨2, 40, C11.recA⟩, ⟨3, 90, C11.recA⟩] 2 4 0 =
     [⟨1, 0, C11.recA⟩, ⟨2, 40, C11.recA⟩, ⟨3, 90, C11.recA⟩] := by decide
+
+/-- the demo store of C11 (two tables, an overwrite across tables, a delete, a compaction step):
+    the hypotheses hold, and the iteration with one entry per page yields its two present keys -/
+example : KV.ScanInv (C11.run (KV.fork 256 1000) C11.demoOps).1 :=
+  C12_scaninv_run C11.demoOps C11.demoOps_ok _ (fork_wf 256 1000) (KV.scanInv_fork 256 1000)
+example : LaInd (fun r => r.key == [97]) := fun _ => rfl
+set_option maxRecDepth 100000 in
+example : (KV.walkKV (fun _ => true) 1 (fun _ => 50) 6 0 (C11.run (KV.fork 256 1000) C11.demoOps).1).map (·.key) =
+    [[97], [97]] := by decide
+set_option maxRecDepth 100000 in
+example : ((C11.run (KV.fork 256 1000) C11.demoOps).1.rangeAll.map (·.1)) = [2, 1] := by decide
 
 end Olric.C12
